@@ -96,9 +96,9 @@ def search(ctx, hints):
     if ctx.thorough():
         keys *= 25
     cwd = ctx.scratch('c14s')
-    extra = ['reuse=3', 'workers=8', 'perworker=6', 'loops=3']
+    extra = ['reuse=3', 'workers=8', 'perworker=6', 'loops=3', 'grind=30000']
     if ctx.thorough():
-        extra = ['reuse=16', 'workers=16', 'perworker=10', 'loops=8']
+        extra = ['reuse=16', 'workers=16', 'perworker=10', 'loops=8', 'grind=2500000']
     rc, so, se = vlib.run([binp, 'mode=search', 'out=' + out, 'keys=%d' % keys] + extra, cwd=cwd,
                           env=dict(VERIF_SEED=str(ctx.seed)), timeout=1500)
     import shutil
